@@ -267,6 +267,7 @@ def run_case(kind, params, ctx):
                         got = f"{type(e).__name__}: {e}"
                     ctx.evals()
                     ctx.count("small.pairs")
+                    ctx.bulk_distinct(1)
                     if got != exp:
                         rel = "inf" if A is None or B is None else ("same" if A == B else ("neg" if A == c.neg(B) else "generic"))
                         ctx.violation(f"small/add-wrong/{rel}", f"p={p}: {A}+{B} = {got}, reference {exp}", sub={"A": A, "B": B})
@@ -288,6 +289,7 @@ def run_case(kind, params, ctx):
                         got = f"{type(e).__name__}: {e}"
                     ctx.evals()
                     ctx.count("small.scalars")
+                    ctx.bulk_distinct(1)
                     if got != exp:
                         cls = "k=0" if k == 0 else ("k=n" if k == c.n else ("k>n" if k > c.n else "k<n"))
                         ctx.violation(f"small/mul-wrong/{cls}", f"p={p}: {k}*{Pt} = {got}, reference {exp}", sub={"k": k, "P": Pt})
@@ -304,6 +306,7 @@ def run_case(kind, params, ctx):
                 for C in pts:
                     ctx.evals()
                     ctx.count("small.assoc")
+                    ctx.bulk_distinct(1)
                     if em.point_add(AB, C) != em.point_add(A, em.point_add(B, C)):
                         ctx.violation("small/associativity", f"p={p}: ({A}+{B})+{C} != {A}+({B}+{C})", sub={"B": B, "C": C})
         ctx.nontrivial()
